@@ -79,12 +79,82 @@ func (p *Pilot) End() {
 	for _, e := range evs {
 		p.Events["end/"+e.Type]++
 	}
+	p.genSims()
+}
+
+// sharedEdit: an administrator message whose handler EDITS an object other messages read in decoded form
+// (registry entries, admin table, oracle whitelist, clp policies).  Used (1) as the first message of
+// transactions whose later message fails, so that the edit is rolled back, and (2) for simulations.
+func (p *Pilot) sharedEdit() (sdk.Msg, string) {
+	a := p.W.Admin.Addr.String()
+	tok := tokens[p.R.Intn(len(tokens))]
+	switch p.R.Intn(8) {
+	case 0, 1, 2: // replace an EXISTING registry entry: no CLP permission, other decimals
+		perms := []trtypes.Permission{trtypes.Permission_IBCEXPORT}
+		if p.R.Bool() {
+			perms = nil
+		}
+		return &trtypes.MsgRegister{From: a, Entry: &trtypes.RegistryEntry{Denom: tok.Denom, BaseDenom: tok.Denom, Decimals: tok.Decimals + int64(p.R.Intn(2)), Permissions: perms}}, "registry.replace"
+	case 3:
+		return &trtypes.MsgDeregister{From: a, Denom: tok.Denom}, "registry.deregister"
+	case 4:
+		reg := &trtypes.Registry{Entries: []*trtypes.RegistryEntry{{Denom: "rowan", BaseDenom: "rowan", Decimals: 18, Permissions: []trtypes.Permission{trtypes.Permission_CLP}},
+			{Denom: tok.Denom, BaseDenom: tok.Denom, Decimals: tok.Decimals}}}
+		return &trtypes.MsgSetRegistry{From: a, Registry: reg}, "registry.set"
+	case 5:
+		acc := &admintypes.AdminAccount{AdminType: []admintypes.AdminType{admintypes.AdminType_CLPDEX, admintypes.AdminType_TOKENREGISTRY, admintypes.AdminType_PMTPREWARDS}[p.R.Intn(3)], AdminAddress: a}
+		return &admintypes.MsgRemoveAccount{Signer: a, Account: acc}, "admin.remove"
+	case 6:
+		m := ethbridgetypes.NewMsgUpdateWhiteListValidator(p.W.Admin.Addr, sdk.ValAddress(p.W.Vals[p.R.Intn(len(p.W.Vals))].Addr), "remove")
+		return &m, "bridge.whitelist.remove"
+	default:
+		return &clptypes.MsgUpdateRewardsParamsRequest{Signer: a, LiquidityRemovalLockPeriod: uint64(p.R.Intn(5)), LiquidityRemovalCancelPeriod: 9,
+			RewardsLockPeriod: uint64(p.R.Intn(3)), RewardsEpochIdentifier: "hour", RewardsDistribute: p.R.Bool()}, "clp.rewardsparams"
+	}
+}
+
+// RolledBackEdit: [shared edit, a bank send of more than the sender owns] — the transaction is rejected as
+// a whole, so the edit must leave no trace anywhere (the second message does not read what the first wrote).
+func (p *Pilot) RolledBackEdit() {
+	m, label := p.sharedEdit()
+	tooMuch := banktypes.NewMsgSend(p.W.Admin.Addr, p.user().Addr, sdk.NewCoins(coin("rowan", pow10(40))))
+	p.Tx("multi."+label+"+send.toomuch", p.W.Admin, m, tooMuch)
+}
+
+// genSims records, after a block is committed, the gas-estimation requests a twin node will serve before
+// the next block: administrator edits of shared objects and an ordinary user message.
+func (p *Pilot) genSims() {
+	for i := 1 + p.R.Intn(2); i > 0; i-- {
+		m, _ := p.sharedEdit()
+		if raw, err := p.C.SignTx(p.W.Admin, 5000000, m); err == nil {
+			p.cur.Sims = append(p.cur.Sims, hex.EncodeToString(raw))
+		}
+	}
+	if ps := p.pools(); len(ps) > 0 {
+		u := p.user()
+		a := ps[p.R.Intn(len(ps))]
+		m := clptypes.NewMsgSwap(u.Addr, clptypes.GetSettlementAsset(), *a.ExternalAsset, frac(a.NativeAssetBalance, 1, 500), sdk.ZeroUint())
+		if raw, err := p.C.SignTx(u, 5000000, &m); err == nil {
+			p.cur.Sims = append(p.cur.Sims, hex.EncodeToString(raw))
+		}
+	}
 }
 
 func (p *Pilot) Height() int64 { return p.C.Height }
 
 // Tx signs, delivers and records one transaction.
 func (p *Pilot) Tx(label string, signer *Acct, msgs ...sdk.Msg) abci.ResponseDeliverTx {
+	// A transaction that fails the STATELESS ValidateBasic never passes CheckTx, so an honest proposer never
+	// puts it in a block; it is left out.  (Observation, cosmos-sdk v0.45 baseapp, not Sifchain code: for such a
+	// transaction DeliverTx reports GasWanted 0 and GasUsed = whatever the block's BeginBlock consumed on the
+	// shared infinite gas meter, which is larger in the first block after a node restart — x/upgrade's
+	// in-memory `downgradeVerified` flag — so a byzantine proposer could make a restarted node disagree.)
+	for _, m := range msgs {
+		if err := m.ValidateBasic(); err != nil {
+			p.Hist[label+":skipped.validatebasic"]++
+			return abci.ResponseDeliverTx{Code: 99998}
+		}
+	}
 	raw, err := p.C.SignTx(signer, 5000000, msgs...)
 	if err != nil {
 		p.Hist[label+":unsigned"]++
@@ -519,13 +589,13 @@ func (p *Pilot) FailingShape() {
 			v := p.R.Intn(len(p.W.Vals))
 			p.claim(v, 1+int64(p.R.Intn(int(p.nonce))), p.user().Addr, int64(1+p.R.Intn(5000)), "bridge.claim.again")
 		}
-	case 11: // bridge: burn more than held; lock with too little ceth for the fee
+	case 11: // bridge: burn / lock more than held
 		if p.R.Bool() {
 			m := ethbridgetypes.NewMsgBurn(1, u.Addr, ethSender, sdk.NewIntFromBigInt(pow10(30)), "ceth", sdk.NewIntFromBigInt(new(big.Int).Mul(big.NewInt(70), pow10(15))))
 			p.Tx("bridge.burn.nofunds", u, &m)
 		} else {
-			m := ethbridgetypes.NewMsgLock(1, u.Addr, ethSender, sdk.NewIntFromBigInt(pow10(18)), "rowan", sdk.NewInt(1))
-			p.Tx("bridge.lock.lowfee", u, &m)
+			m := ethbridgetypes.NewMsgLock(1, u.Addr, ethSender, sdk.NewIntFromBigInt(pow10(30)), "rowan", sdk.NewIntFromBigInt(new(big.Int).Mul(big.NewInt(70), pow10(15))))
+			p.Tx("bridge.lock.nofunds", u, &m)
 		}
 	case 12: // margin: borrow more than the pool holds / position too small for interest payments
 		pool := []string{"ceth", "cusdc"}[p.R.Intn(2)]
